@@ -507,11 +507,11 @@ func classify(m *parser.ASTNode, f *failure) string {
 		if f.cat == "nonidempotent" {
 			return fmt.Sprintf("comments-not-idempotent:%dpre+%dpost", mc.pre, mc.post)
 		}
-		kind, ctx := firstComment(m)
+		kind, _ := firstComment(m)
 		if kind == "post" {
 			return "postcomment-inline-breaks-code"
 		}
-		return "precomment-newline-breaks:" + ctx
+		return "precomment-newline-breaks:" + rootCtx(m)
 	}
 	// raw string printed as interpolating string
 	if f.cat == "structure" && f.t2 != nil {
@@ -545,7 +545,7 @@ func classify(m *parser.ASTNode, f *failure) string {
 	}
 	// blank lines before a token inside a statement
 	if bl := firstBlankLineCtx(m); bl != "" && (f.cat == "structure" || f.cat == "unparseable") {
-		return "blankline-newline-breaks:" + bl
+		return "blankline-newline-breaks:" + rootCtx(m)
 	}
 	// a statement that is glued to the previous line by the parser
 	if f.cat == "structure" && m.Name == parser.NodeSTATEMENTS && f.t2 != nil &&
@@ -617,7 +617,19 @@ func classify(m *parser.ASTNode, f *failure) string {
 var statementKinds = map[string]bool{
 	parser.NodeRETURN: true, parser.NodeBREAK: true, parser.NodeCONTINUE: true, parser.NodeSINK: true,
 	parser.NodeLOOP: true, parser.NodeIF: true, parser.NodeTRY: true, parser.NodeMUTEX: true,
-	parser.NodeIMPORT: true, parser.NodeLET: true,
+	parser.NodeIMPORT: true,
+}
+
+// rootCtx names the construct that is broken: the root of the minimal tree
+// (operators by arity).
+func rootCtx(m *parser.ASTNode) string {
+	if isOp(m) {
+		if len(m.Children) == 2 {
+			return "infix"
+		}
+		return "prefix"
+	}
+	return m.Name
 }
 
 // firstBlankLineCtx returns the kind of the parent of the first node whose
